@@ -10,9 +10,15 @@ tie:   fault-injection correspondence.  For each program of the family (3 modes 
        first fault produces) - exhaustive; thorough adds every triple for the fixed family.  Each run is compared with
        the compiled Lean model on the same (program, fault set)  [impl == model]  and with the property statement
        evaluated on what the implementation did  [oracle].
+       Programs also contain multi-key commands (set_many / delete_many over 2-3 keys) and CONTENDING HOLDERS: other tasks
+       inside their own real transaction blocks that hold the lock of a key the victim writes and leave their block at a
+       chosen moment - just before the victim's backend command number i (EVERY i of the trace) or after the victim's block
+       has been left; the fault sets are enumerated for every such placement.  The lock keys are inspected after the
+       victim's block is left AND every holder has finished AND any task still running has had its polling periods.
 """
 from __future__ import annotations
 
+import itertools
 import json
 from pathlib import Path
 
@@ -38,15 +44,23 @@ TRUSTED = [
     "harness: FaultyMemory (harness/txfault.py), virtual clock, canonicalisation of the command trace",
     "injected exceptions are subclasses of Exception (CacheBackendInteractionError / RuntimeError); BaseException-only "
     "failures such as task cancellation are not in the family",
+    "contending holders are real transaction blocks in other asyncio tasks on the same Cache, parked on an asyncio.Event; a holder "
+    "is released while the victim's backend command i is suspended (before it takes effect) or after the victim's block; the model "
+    "sees a holder only as a foreign lock entry and a release event `env i` (a holder's only effect on the stores is its lock)",
+    "the 0.1 s lock-steps of the wait loop are symbolic in the correspondence (model run with stepDt = 0): the lease of a lock "
+    "acquired after a lock-step is checked on the implementation (gone exactly timeout after its acquisition) but not compared",
 ]
 
 
 # ---------------------------------------------------------------------------------------------------------
 # the family
 
-def P(mode, nb, body, timeout=16, form="ctx", exc="interaction", data=(), flocks=()):
-    return {"mode": mode, "timeout": timeout, "nb": nb, "form": form, "exc": exc,
-            "data": [list(d) for d in data], "flocks": [list(f) for f in flocks], "body": list(body)}
+def P(mode, nb, body, timeout=16, form="ctx", exc="interaction", data=(), flocks=(), holders=()):
+    d = {"mode": mode, "timeout": timeout, "nb": nb, "form": form, "exc": exc,
+         "data": [list(d) for d in data], "flocks": [list(f) for f in flocks], "body": list(body)}
+    if holders:
+        d["holders"] = [{"b": b, "k": k, "end": end} for b, k, end in holders]
+    return d
 
 
 DATA1 = [(0, 1, 5, None), (0, 2, 7, 8)]
@@ -67,6 +81,10 @@ def fixed_family():
             P(mode, 2, ["set.0.0.1.8", "adv.4", "set.0.1.2.8", "set.1.2.3.4", "adv.4", "get.1.2", "incr.1.0", "get.0.0"],
               data=DATA2, form=form, exc="runtime"),
             P(mode, 2, ["get.0.1", "incr.1.1", "incr.1.1", "set.0.3.9.-"], data=DATA2, form=other, timeout=80),
+            # multi-key commands
+            P(mode, 1, ["setmany.0.-.0:1+1:2+2:3", "delmany.0.2+3", "get.0.1"], data=DATA1, form=form),
+            P(mode, 2, ["setmany.0.8.0:1+1:2", "setmany.1.-.0:4+2:5", "delmany.0.1+3", "incr.1.0", "raise"], data=DATA2,
+              form=other, exc="runtime"),
         ]
     # contention: a lock key held for ever by someone else -> LockedError in the body after the wait loop.
     # The loop's sleeps (0.1 s each) are not whole ticks, so contended programs carry no TTLs: nothing in them depends on the clock.
@@ -75,6 +93,20 @@ def fixed_family():
         P("locked", 1, ["del.0.0", "set.0.1.2.-"], timeout=2, data=DATA0, flocks=[(0, 2)], form="decor", exc="runtime"),
         P("serializable", 2, ["set.0.0.1.-", "set.1.0.2.-", "incr.0.1"], timeout=4, data=DATA0, flocks=[(1, 0)]),
         P("serializable", 1, ["get.0.1", "set.0.0.1.-"], timeout=2, data=DATA0, flocks=[(0, 0)], form="decor"),
+        P("locked", 1, ["set.0.0.1.-", "delmany.0.1+2+3"], timeout=2, data=DATA0, flocks=[(0, 3)]),
+    ]
+    # contending holders: another task's open transaction holds a lock the victim needs and leaves its block at a chosen
+    # moment (every command position of the victim's trace, or after the victim's block)
+    out += [
+        P("locked", 1, ["setmany.0.-.0:1+1:2+2:3"], timeout=2, data=DATA0, holders=[(0, 1, "rollback")]),
+        P("locked", 1, ["delmany.0.0+3+1", "get.0.2"], timeout=2, data=DATA0, holders=[(0, 3, "commit")], form="decor", exc="runtime"),
+        P("locked", 2, ["set.1.0.2.-", "setmany.0.-.2:1+0:2", "incr.1.1"], timeout=2, data=DATA0, holders=[(0, 0, "commit")]),
+        P("locked", 1, ["set.0.0.1.-", "incr.0.1", "del.0.2"], timeout=2, data=DATA0, holders=[(0, 1, "rollback")]),
+        P("locked", 2, ["setmany.1.-.0:1+1:2", "delmany.0.0+1", "raise"], timeout=2, data=DATA0, holders=[(1, 1, "commit")], form="decor"),
+        P("serializable", 2, ["set.0.0.1.-", "setmany.1.-.0:2+1:3"], timeout=2, data=DATA0, holders=[(1, 0, "rollback")]),
+        P("serializable", 1, ["delmany.0.1+2", "set.0.0.1.-"], timeout=2, data=DATA0, holders=[(0, 3, "commit")], form="decor"),
+        # two holders, released independently
+        P("locked", 1, ["setmany.0.-.0:1+1:2+2:3"], timeout=2, data=DATA0, holders=[(0, 0, "commit"), (0, 2, "rollback")]),
     ]
     return out
 
@@ -83,61 +115,104 @@ def gen_program(rng):
     mode = rng.choice(["fast", "locked", "locked", "serializable"])
     nb = rng.choice([1, 2, 2])
     flocks = []
+    holders = []
     timeout = rng.choice([2, 4, 8, 16, 80])
-    if mode != "fast" and rng.random() < 0.2:
-        b = rng.randrange(nb)
-        flocks = [[b, 0 if mode == "serializable" else rng.randrange(tf.NKEYS) + 1]]
-        timeout = rng.choice([2, 4])
+    contended = mode != "fast" and rng.random() < 0.35
     data = []
     for b in range(nb):
         for k in range(tf.NKEYS):
             if rng.random() < 0.4:
-                data.append([b, k, rng.randrange(-1, 6), None if flocks else rng.choice([None, None, 4, 8, 24])])
+                data.append([b, k, rng.randrange(-1, 6), None if contended else rng.choice([None, None, 4, 8, 24])])
+    if contended:
+        timeout = rng.choice([2, 2, 4])
+        if rng.random() < 0.3:
+            b = rng.randrange(nb)
+            flocks = [[b, 0 if mode == "serializable" else rng.randrange(tf.NKEYS) + 1]]
+        else:
+            taken = set()
+            for _ in range(rng.choice([1, 1, 1, 2])):
+                b, k = rng.randrange(nb), rng.randrange(tf.NKEYS)
+                lock = (b, 0) if mode == "serializable" else (b, k)
+                if lock in taken:
+                    continue
+                taken.add(lock)
+                absent = not any(d[0] == b and d[1] == k for d in data)
+                holders.append((b, k, "commit" if absent and rng.random() < 0.5 else "rollback"))
+    ttl_free = bool(contended)
+    hot = [(b, k) for b, k, _ in holders]          # keys whose lock a holder has: make the victim want them
     body = []
     for _ in range(rng.randrange(1, 7)):
         b, k = rng.randrange(nb), rng.randrange(tf.NKEYS)
+        if hot and rng.random() < 0.35:
+            b, k = rng.choice(hot)
         r = rng.random()
-        if r < 0.30:
-            body.append(f"set.{b}.{k}.{rng.randrange(0, 6)}.{'-' if flocks else rng.choice(['-', '-', 4, 8, 16])}")
-        elif r < 0.50:
+        if r < 0.22:
+            body.append(f"set.{b}.{k}.{rng.randrange(0, 6)}.{'-' if ttl_free else rng.choice(['-', '-', 4, 8, 16])}")
+        elif r < 0.36:
             body.append(f"incr.{b}.{k}")
-        elif r < 0.68:
+        elif r < 0.50:
             body.append(f"get.{b}.{k}")
-        elif r < 0.84:
+        elif r < 0.62:
             body.append(f"del.{b}.{k}")
-        elif r < 0.94 and not flocks:
+        elif r < 0.76:
+            ks = rng.sample(range(tf.NKEYS), rng.choice([2, 2, 3]))
+            if hot and (b, k) in hot and k not in ks:
+                ks[rng.randrange(len(ks))] = k
+            ttl = "-" if ttl_free else rng.choice(["-", "-", 4, 8])
+            body.append(f"setmany.{b}.{ttl}." + "+".join(f"{x}:{rng.randrange(0, 6)}" for x in ks))
+        elif r < 0.86:
+            ks = rng.sample(range(tf.NKEYS), rng.choice([2, 2, 3]))
+            if hot and (b, k) in hot and k not in ks:
+                ks[rng.randrange(len(ks))] = k
+            body.append(f"delmany.{b}." + "+".join(str(x) for x in ks))
+        elif r < 0.94 and not ttl_free:
             body.append(f"adv.{rng.choice([2, 4, 8, 16])}")
         else:
             body.append("raise")
     if rng.random() < 0.2:
         body.append("raise")
     return P(mode, nb, body, timeout=timeout, form=rng.choice(["ctx", "decor"]),
-             exc=rng.choice(["interaction", "runtime"]), data=data, flocks=flocks)
+             exc=rng.choice(["interaction", "runtime"]), data=data, flocks=flocks, holders=holders)
 
 
 # ---------------------------------------------------------------------------------------------------------
 # running and judging
 
+def rel_choices(prog):
+    """every placement of the holders' release events: just before command i for every i a trace of this program can have,
+    or after the victim's block"""
+    hs = prog.get("holders") or []
+    if not hs:
+        return [()]
+    n = len(hs)
+    longest = len(tf.execute(prog, (), (0,) * n)["trace"]) + n * tf.attempts_for(prog["timeout"] * tf.TICK)
+    return list(itertools.product(list(range(longest)) + ["after"], repeat=n))
+
+
 def enumerate_cases(prog, depth):
-    """fault-free run, every single position, every pair (second position from the trace the first fault produces), ...
-    up to `depth` simultaneous faults.  Returns [(faults, obs)]."""
+    """for every placement of the release events: the fault-free run, every single position, every pair (second position
+    from the trace the first fault produces), ... up to `depth` simultaneous faults.  Returns [(faults, rels, obs)]."""
     out = []
-    frontier = [((), tf.execute(prog, ()))]
-    out.extend(frontier)
-    for _ in range(depth):
-        nxt = []
-        for faults, obs in frontier:
-            start = faults[-1] + 1 if faults else 0
-            for j in range(start, len(obs["trace"])):
-                f2 = faults + (j,)
-                nxt.append((f2, tf.execute(prog, f2)))
-        out.extend(nxt)
-        frontier = nxt
+    for rels in rel_choices(prog):
+        first = tf.execute(prog, (), rels)
+        if any(isinstance(r, int) and r >= len(first["trace"]) for r in rels):
+            continue                      # never reached: the same case as "after"
+        frontier = [((), rels, first)]
+        out.extend(frontier)
+        for _ in range(depth):
+            nxt = []
+            for faults, _r, obs in frontier:
+                start = faults[-1] + 1 if faults else 0
+                for j in range(start, len(obs["trace"])):
+                    f2 = faults + (j,)
+                    nxt.append((f2, rels, tf.execute(prog, f2, rels)))
+            out.extend(nxt)
+            frontier = nxt
     return out
 
 
 def ask_model(prog, cases):
-    answers = DRIVER.ask([tf.model_line(prog, faults, obs["uprio"]) for faults, obs in cases])
+    answers = DRIVER.ask([tf.model_line(prog, faults, obs["uprio"], rels) for faults, rels, obs in cases])
     res = []
     for a in answers:
         m = tf.parse_answer(a)
@@ -145,6 +220,18 @@ def ask_model(prog, cases):
             raise HarnessError(f"model driver rejected a C16 request: {a!r}")
         res.append(m)
     return res
+
+
+def blocked_attempts(obs):
+    """indices of set_lock commands that were answered False: a later set_lock of the same lock key follows in the same
+    body command, or the body command ended in LockedError - seen in the trace as consecutive attempts on one key"""
+    tr = obs["trace"]
+    out = []
+    for i in range(len(tr) - 1):
+        a, b = tr[i], tr[i + 1]
+        if a.split(".")[1] == "setlock" and not a.endswith("!") and a == b.rstrip("!"):
+            out.append(i)
+    return out
 
 
 def classify(prog, obs):
@@ -178,74 +265,155 @@ def classify(prog, obs):
         st.add("locked_error_in_body")
     if failed and obs["exc"] == "none":
         st.add("fault_swallowed")          # never expected (theorem fault_never_silent); shows up as impl != model
+    # multi-key commands and contention
+    starts = obs["cmd_starts"]
+    body_end = obs["body_end"] if obs["body_end"] is not None else len(tr)
+    blocked = blocked_attempts(obs)
+    for n, c in enumerate(prog["body"][:len(starts)]):
+        if c.split(".")[0] not in ("setmany", "delmany"):
+            continue
+        lo, hi = starts[n], (starts[n + 1] if n + 1 < len(starts) else body_end)
+        if hi > lo:
+            st.add("multi_key_command_took_locks")
+        if any(lo <= i < hi for i in failed):
+            st.add("fault_while_multi_key_command_takes_its_locks")
+            if any(lo <= j < hi for j in blocked):
+                st.add("fault_in_multi_key_command_that_had_to_wait_for_a_lock")
+    if blocked:
+        st.add("lock_attempt_blocked")
+    rel = obs.get("released_at") or []
+    for r in rel:
+        if r == "after":
+            st.add("holder_released_after_block")
+        elif isinstance(r, int):
+            st.add("holder_released_during_block")
+            if any(j < r for j in blocked) and r < len(tr) and tr[r].split(".")[1] == "setlock" and (r - 1) in blocked:
+                st.add("lock_acquired_after_waiting_for_holder")
+                if any(i > r for i in failed):
+                    st.add("fault_after_lock_acquired_after_waiting")
+            if r >= body_end:
+                st.add("holder_released_during_commit_or_rollback")
+    if blocked and any(i > blocked[0] for i in failed) and any(r == "after" or (isinstance(r, int) and r > min(
+            i for i in failed if i > blocked[0])) for r in rel):
+        st.add("fault_while_holder_still_blocks")
+    if any(l.endswith(".~") for l in obs["locks"]):
+        st.add("left_lock_had_been_acquired_after_a_lock_step")
     return st
 
 
+def canon_locks(obs_locks, model_locks):
+    """a lock acquired after a lock-step carries no whole-tick deadline: its lease was checked on the implementation
+    (reported `~`); compare owner and key only"""
+    loose = {l.rsplit(".", 1)[0] for l in obs_locks if l.endswith(".~")}
+    return [(l.rsplit(".", 1)[0] + ".~") if l.rsplit(".", 1)[0] in loose else l for l in model_locks]
+
+
 def diff(obs, model):
-    return [k for k in KEYS if obs[k] != model[k]]
+    out = []
+    for k in KEYS:
+        mv = canon_locks(obs["locks"], model["locks"]) if k == "locks" else model[k]
+        if obs[k] != mv:
+            out.append(k)
+    return out
 
 
 def summary(obs):
-    return {k: obs[k] for k in KEYS + ["body_end", "body_raised", "failed"]}
+    return {k: obs[k] for k in KEYS + ["body_end", "body_raised", "failed", "released_at", "tasks_pending_after_block",
+                                       "late_commands"]}
 
 
-def canon(prog, faults):
-    return json.dumps([prog, list(faults)], sort_keys=True)
+def canon(prog, faults, rels=()):
+    return json.dumps([prog, list(faults), list(rels)], sort_keys=True)
 
 
-def violates(prog, faults, clause=None):
-    obs = tf.execute(prog, faults)
+def violates(prog, faults, rels, clause=None):
+    obs = tf.execute(prog, faults, rels)
     bad = tf.oracle(prog, obs)
     return (clause in bad) if clause else bool(bad)
 
 
 def find_violation(prog, depth=2, clause=None):
-    for faults, obs in enumerate_cases(prog, depth):
+    for faults, rels, obs in enumerate_cases(prog, depth):
         bad = tf.oracle(prog, obs)
         if (clause in bad) if clause else bad:
-            return faults
+            return faults, rels
     return None
 
 
 def used_backends(body):
-    return {int(c.split(".")[1]) for c in body if c.split(".")[0] in ("set", "incr", "get", "del")}
+    return {int(c.split(".")[1]) for c in body if c.split(".")[0] in ("set", "incr", "get", "del", "setmany", "delmany")}
 
 
-def shrink(prog, faults, clause):
-    """smaller program and fault set on which the implementation still contradicts the same clause"""
-    best = (prog, tuple(faults))
+def shrink(prog, faults, rels, clause):
+    """smaller program, fault set and release placement on which the implementation still contradicts the same clause"""
+    best = (prog, tuple(faults), tuple(rels))
     if len(faults) > 1:
         for f in faults:
-            if violates(prog, (f,), clause):
-                best = (prog, (f,))
+            if violates(prog, (f,), rels, clause):
+                best = (prog, (f,), tuple(rels))
                 break
+    # holders that do not matter
+    j = 0
+    while j < len(best[0].get("holders") or []):
+        hs = list(best[0]["holders"])
+        p2 = dict(best[0], holders=hs[:j] + hs[j + 1:])
+        if not p2["holders"]:
+            del p2["holders"]
+        r2 = best[2][:j] + best[2][j + 1:]
+        if violates(p2, best[1], r2, clause):
+            best = (p2, best[1], r2)
+        else:
+            j += 1
 
     def with_body(body):
         return dict(best[0], body=list(body))
 
-    body = ddmin(best[0]["body"], lambda b: find_violation(with_body(b), len(best[1]) or 1, clause) is not None)
+    depth = len(best[1]) or 1
+    body = ddmin(best[0]["body"], lambda b: find_violation(with_body(b), depth, clause) is not None)
     p2 = with_body(body)
-    f2 = find_violation(p2, len(best[1]) or 1, clause)
+    f2 = find_violation(p2, depth, clause)
     if f2 is not None:
-        best = (p2, f2)
+        best = (p2, f2[0], f2[1])
+    # fewer keys in the multi-key commands
+    changed = True
+    while changed:
+        changed = False
+        for n, c in enumerate(best[0]["body"]):
+            w = c.split(".")
+            if w[0] not in ("setmany", "delmany"):
+                continue
+            parts = w[-1].split("+")
+            for x in range(len(parts)):
+                if len(parts) <= 1:
+                    break
+                c2 = ".".join(w[:-1] + ["+".join(parts[:x] + parts[x + 1:])])
+                p3 = dict(best[0], body=best[0]["body"][:n] + [c2] + best[0]["body"][n + 1:])
+                f3 = find_violation(p3, depth, clause)
+                if f3 is not None:
+                    best = (p3, f3[0], f3[1])
+                    changed = True
+                    break
+            if changed:
+                break
     for field in ("data", "flocks"):
         p3 = dict(best[0], **{field: []})
-        if violates(p3, best[1], clause):
-            best = (p3, best[1])
+        if violates(p3, best[1], best[2], clause):
+            best = (p3, best[1], best[2])
     if best[0]["nb"] == 2 and used_backends(best[0]["body"]) <= {0} and all(d[0] == 0 for d in best[0]["data"]) \
-            and all(f[0] == 0 for f in best[0]["flocks"]):
+            and all(f[0] == 0 for f in best[0]["flocks"]) and all(h["b"] == 0 for h in best[0].get("holders") or []):
         p4 = dict(best[0], nb=1)
-        if violates(p4, best[1], clause):
-            best = (p4, best[1])
+        if violates(p4, best[1], best[2], clause):
+            best = (p4, best[1], best[2])
     return best
 
 
-def make_replay(prog, faults, origin):
-    obs = tf.execute(prog, faults)
-    model = ask_model(prog, [(faults, obs)])[0]
+def make_replay(prog, faults, rels, origin):
+    obs = tf.execute(prog, faults, rels)
+    model = ask_model(prog, [(faults, rels, obs)])[0]
     return {
         "program": prog,
         "faults": list(faults),
+        "rels": list(rels),
         "impl": summary(obs),
         "model": model,
         "violated_clauses": tf.oracle(prog, obs),
@@ -255,21 +423,36 @@ def make_replay(prog, faults, origin):
     }
 
 
-def report_property(chk: Check, prog, faults, clause, origin):
-    sp, sf = shrink(prog, faults, clause)
-    rep = make_replay(sp, sf, origin)
+def contention_text(prog, rels):
+    hs = prog.get("holders") or []
+    if not hs:
+        return ""
+    parts = []
+    for h, r in zip(hs, rels):
+        when = "after the block was left" if r == "after" else f"just before command {r}"
+        parts.append(f"another open transaction held the lock of key {h['k']} of backend {h['b']} and left its block ({h['end']}) {when}")
+    return "; " + "; ".join(parts)
+
+
+def report_property(chk: Check, prog, faults, rels, clause, origin):
+    sp, sf, sr = shrink(prog, faults, rels, clause)
+    rep = make_replay(sp, sf, sr, origin)
+    extra = ""
+    if rep["impl"]["tasks_pending_after_block"] or rep["impl"]["late_commands"]:
+        extra = (f"; {rep['impl']['tasks_pending_after_block']} task(s) of the transaction still running after the block was left, "
+                 f"which then issued {rep['impl']['late_commands']}")
     chk.violation(
         f"after a transaction block ({sp['mode']} mode, {sp['nb']} backend(s), body {sp['body']}) in which backend command(s) "
-        f"{list(sf)} of the trace {rep['impl']['trace']} failed: {clause}; caller saw {rep['impl']['exc']}, "
-        f"locks left {rep['impl']['locks']}",
+        f"{list(sf)} of the trace {rep['impl']['trace']} failed{contention_text(sp, sr)}: {clause}; caller saw {rep['impl']['exc']}, "
+        f"locks left {rep['impl']['locks']}{extra}",
         rep, signature=clause)
 
 
-def report_correspondence(chk: Check, prog, faults, keys, origin):
-    rep = make_replay(prog, faults, origin)
+def report_correspondence(chk: Check, prog, faults, rels, keys, origin):
+    rep = make_replay(prog, faults, rels, origin)
     chk.violation(
         f"correspondence broken: implementation differs from the model TxFault on {keys} for program {prog['body']} "
-        f"({prog['mode']}, {prog['nb']} backend(s)), faults {list(faults)}, but the property holds on this case",
+        f"({prog['mode']}, {prog['nb']} backend(s)), faults {list(faults)}{contention_text(prog, rels)}, but the property holds on this case",
         dict(rep, broken="correspondence TxFault model <-> cashews/wrapper/transaction.py + cashews/backends/transaction.py"),
         signature=None, no_input=True)
 
@@ -277,7 +460,7 @@ def report_correspondence(chk: Check, prog, faults, keys, origin):
 def corpus_cases():
     for f in sorted((ROOT / "corpus" / PROP).glob("*.json")):
         c = json.loads(f.read_text())
-        yield f.name, c["program"], tuple(c["faults"])
+        yield f.name, c["program"], tuple(c["faults"]), tuple(c.get("rels", ()))
 
 
 def run(chk: Check) -> int:
@@ -293,20 +476,21 @@ def run(chk: Check) -> int:
     by_mode: dict[str, int] = {}
     depth_hist = {0: 0, 1: 0, 2: 0, 3: 0}
     samples = []
+    hist_rel: dict[str, int] = {}
     found_property = 0
     found_corr = 0
     seen_clauses = set()
 
-    pending: list = []          # (prog, faults, obs, origin) waiting for the model's answer (one driver call per batch)
+    pending: list = []          # (prog, faults, rels, obs, origin) waiting for the model's answer (one driver call per batch)
 
     def flush():
         nonlocal evaluations, found_property, found_corr
         if not pending:
             return
-        answers = DRIVER.ask([tf.model_line(prog, faults, obs["uprio"]) for prog, faults, obs, _ in pending])
+        answers = DRIVER.ask([tf.model_line(prog, faults, obs["uprio"], rels) for prog, faults, rels, obs, _ in pending])
         batch = list(zip(pending, answers))
         pending.clear()
-        for (prog, faults, obs, origin), ans in batch:
+        for (prog, faults, rels, obs, origin), ans in batch:
             model = tf.parse_answer(ans)
             if model is None:
                 raise HarnessError(f"model driver rejected a C16 request: {ans!r}")
@@ -315,42 +499,48 @@ def run(chk: Check) -> int:
             st = classify(prog, obs)
             for x in st:
                 interesting[x] = interesting.get(x, 0) + 1
-            if obs["failed"] or "locked_error_in_body" in st:
-                distinct.add(canon(prog, faults))
+            if obs["failed"] or "locked_error_in_body" in st or "lock_attempt_blocked" in st:
+                distinct.add(canon(prog, faults, rels))
+            if prog.get("holders"):
+                hist_rel["after" if "after" in rels else "during"] = hist_rel.get("after" if "after" in rels else "during", 0) + 1
             for i in obs["failed"]:
                 name = obs["trace"][i].split(".")[1]
                 hist_cmd[name] = hist_cmd.get(name, 0) + 1
             if len(samples) < 4 and len(faults) == len(samples) % 3 and st and len(obs["trace"]) <= 12:
-                samples.append({"program": prog, "faults": list(faults), "impl": summary(obs), "states": sorted(st)})
+                samples.append({"program": prog, "faults": list(faults), "rels": list(rels), "impl": summary(obs), "states": sorted(st)})
             bad = tf.oracle(prog, obs)
             d = diff(obs, model)
             for clause in bad:
                 if clause not in seen_clauses and found_property < 3:
                     seen_clauses.add(clause)
                     found_property += 1
-                    report_property(chk, prog, faults, clause, origin)
+                    report_property(chk, prog, faults, rels, clause, origin)
             if d and not bad and found_corr < 2 and found_property == 0:
                 # determinism check before blaming anybody
-                again = tf.execute(prog, faults)
+                again = tf.execute(prog, faults, rels)
                 if summary(again) != summary(obs):
-                    raise HarnessError(f"non-deterministic run of {prog} with faults {faults}")
+                    raise HarnessError(f"non-deterministic run of {prog} with faults {faults}, releases {rels}")
                 found_corr += 1
-                report_correspondence(chk, prog, faults, d, origin)
+                report_correspondence(chk, prog, faults, rels, d, origin)
 
     def submit(prog, cases, origin):
-        pending.extend((prog, faults, obs, origin) for faults, obs in cases)
+        pending.extend((prog, faults, rels, obs, origin) for faults, rels, obs in cases)
         if len(pending) >= 1500:
             flush()
 
     # corpus first
-    for name, prog, faults in corpus_cases():
+    for name, prog, faults, rels in corpus_cases():
         hist_prog["corpus_cases"] += 1
-        submit(prog, [(faults, tf.execute(prog, faults))], "corpus:" + name)
+        submit(prog, [(faults, rels, tf.execute(prog, faults, rels))], "corpus:" + name)
     flush()
 
     def whole_program(prog, origin, depth):
         hist_prog["programs"] += 1
         by_mode[f"{prog['mode']}/{prog['nb']}"] = by_mode.get(f"{prog['mode']}/{prog['nb']}", 0) + 1
+        if prog.get("holders"):
+            hist_prog["with_holders"] = hist_prog.get("with_holders", 0) + 1
+        if any(c.split(".")[0] in ("setmany", "delmany") for c in prog["body"]):
+            hist_prog["with_multi_key_commands"] = hist_prog.get("with_multi_key_commands", 0) + 1
         submit(prog, enumerate_cases(prog, depth), origin)
 
     for i, prog in enumerate(fixed_family()):
@@ -358,7 +548,7 @@ def run(chk: Check) -> int:
             break
         hist_prog["fixed"] += 1
         # thorough: triples too, for the programs whose traces are short enough
-        depth = 3 if chk.thorough and prog["timeout"] <= 16 else 2
+        depth = 3 if chk.thorough and prog["timeout"] <= 16 and len(prog.get("holders") or []) < 2 else 2
         whole_program(prog, f"fixed:{i}", depth)
     flush()
     g = 0
@@ -380,22 +570,30 @@ def run(chk: Check) -> int:
         "exhaustive": True,
         "rule": "for every program: the fault-free run, EVERY single position of its backend-command trace made to raise, and EVERY pair "
                 "(second position ranging over the trace that the first fault produces); thorough also every triple for the fixed family. "
+                "For a program with contending holders (other tasks' open transactions holding a lock the victim needs) all of this is "
+                "repeated for EVERY placement of each holder's release: just before the victim's command i, for every i of the trace, "
+                "and after the victim's block. "
                 "Programs: a fixed family (3 modes x 1/2 backends x context-manager/decorator x both exception classes, normal / raising "
-                "bodies, TTL groups and time advance, contention) plus programs generated from VERIF_SEED until the budget is used. "
+                "bodies, single- and multi-key writes (set_many / delete_many over 2-3 keys), TTL groups and time advance, contention "
+                "with a lock held for ever, contention with 1-2 holders that commit or roll back) plus programs generated from VERIF_SEED "
+                "until the budget is used. "
                 "Exhaustive per program, not over programs. A case is non-trivial iff at least one command actually failed or the body "
-                "hit LockedError; distinct = distinct (program, fault set).",
+                "hit LockedError or a lock attempt was blocked; distinct = distinct (program, fault set, release placement).",
         "samples": samples,
         "programs": hist_prog["programs"],
         "program_counts": hist_prog,
         "programs_by_mode_and_backends": by_mode,
         "runs_by_number_of_faults": {str(k): v for k, v in depth_hist.items()},
+        "runs_with_holders_by_release": hist_rel,
         "failed_command_histogram": hist_cmd,
         "interesting_states_runs": interesting,
         "trusted_base": TRUSTED,
         "partial": "not exhibited by the model: a command that takes effect and then reports failure; cancellation (BaseException); "
-                   "several tasks (C05); nested blocks and explicit tx.commit()/rollback() inside the body; commands other than "
-                   "set/incr/get/delete; the 0.1 s sleeps of the lock wait loop are symbolic (count of attempts), so the clock of "
-                   "contended runs is not compared; Redis/diskcache backends",
+                   "arbitrary interleavings of several tasks (C05; here other tasks only hold and release locks at command "
+                   "granularity); a holder that TAKES a lock while the victim's block runs; nested blocks and explicit "
+                   "tx.commit()/rollback() inside the body; commands other than set/incr/get/delete/set_many/delete_many (single "
+                   "backend per multi-key command); the 0.1 s sleeps of the lock wait loop are symbolic (count of attempts), so the "
+                   "clock of contended runs is not compared; Redis/diskcache backends",
     })
     chk.assumptions.extend(TRUSTED)
     return chk.finish(proof)
@@ -406,14 +604,18 @@ def replay(chk: Check, path: str) -> int:
     if "program" not in c:
         print("replay: this file names a broken proof obligation / correspondence, there is no input to re-run")
         return 1
-    prog, faults = c["program"], tuple(c["faults"])
-    obs = tf.execute(prog, faults)
-    model = ask_model(prog, [(faults, obs)])[0]
+    prog, faults, rels = c["program"], tuple(c["faults"]), tuple(c.get("rels", ()))
+    obs = tf.execute(prog, faults, rels)
+    model = ask_model(prog, [(faults, rels, obs)])[0]
     print("program:", json.dumps(prog))
     print("faults :", list(faults))
+    if prog.get("holders"):
+        print("holders released:", list(rels), "(command index of the victim's trace, or after its block)")
     for k in KEYS:
-        flag = "" if obs[k] == model[k] else "   <-- differs"
+        flag = "   <-- differs" if k in diff(obs, model) else ""
         print(f"  {k:6s} impl={obs[k]}\n         model={model[k]}{flag}")
+    if obs["tasks_pending_after_block"] or obs["late_commands"]:
+        print(f"  {obs['tasks_pending_after_block']} task(s) still running after the block was left; they issued {obs['late_commands']}")
     bad = tf.oracle(prog, obs)
     d = diff(obs, model)
     if not bad and not d:
